@@ -153,6 +153,25 @@ def r2_fullness_guard(r, facts):
             r.bad('Submissions::add', 'no comparison of distance(tail,head) with submissions_len found inside the lock region (unrecognised form)', f.where())
         return
     r.idiom('%s/%s-edge' % (accepted[0][1], accepted[0][3]))
+    # every other write into the slot (clearing it: Submission::reset, or a store through the slot reference) needs the room
+    # test in front of it just like the fill: a slot cleared before the test is the oldest unconsumed entry when the
+    # queue turns out to be full
+    guard_locs = [a[0] for a in accepted]
+    slot_writes = [l for l, t2 in f.calls() if (t2.get('callee') or '').endswith('sq::Submission::reset') and not f.blocks[l[0]]['cleanup']]
+    for l, s_ in f.assigns():
+        if s_['lhs']['p'] and any((p_.get('adt') or '').endswith('io_uring_sqe') or (p_.get('adt') or '').endswith('sq::Submission') for p_ in s_['lhs']['p'] if p_['k'] == 'field'):
+            slot_writes.append(l)
+    for l in slot_writes:
+        r.inst('slot write', f.where(l))
+        ok_w = False
+        for gl in guard_locs:
+            if not f.dominates(gl, l):
+                continue
+            room = _room_targets(f, eb, gl, fill_loc)
+            full = [o for o in set(f.succ[gl[0]]) if o not in room]
+            if room and all(f.forward_paths_hit([Loc(o, 0)], [l], blockers=[gl]) is None for o in full):
+                ok_w = True
+        r.require(ok_w, 'Submissions::add/slot-cleared-early', 'the submission slot is written (cleared) before the locked room test: when the queue is full this destroys the oldest entry the kernel has not consumed yet', f.where(l))
     # head loaded before tail, both inside the lock region
     loads = {}
     for loc, t in f.calls_to(fam.LOAD_KERNEL_SHARED):
@@ -163,6 +182,15 @@ def r2_fullness_guard(r, facts):
         r.inst('head-before-tail', f.where(h[0]), '')
         r.require(f.dominates(h[0], t_[0]), 'Submissions::add/loads', 'tail is loaded before head inside the lock (difference may underflow)', f.where(t_[0]))
     r.floor(2)
+
+
+def _room_targets(f, eb, gl, fill_loc):
+    """successors of the room test at gl over which the fill is reached (value-driven)"""
+    out = set()
+    for o in set(f.succ[gl[0]]):
+        if f.forward_paths_hit([Loc(o, 0)], [fill_loc], blockers=[gl]) is not None:
+            out.add(o)
+    return out
 
 
 def r3_order(r, facts):
